@@ -1,5 +1,6 @@
 import Casket.Model.Policy
 import Casket.Spec.Policy
+import Casket.Spec.PolicyHeader
 import Casket.Model.Retry
 import Casket.Spec.Retry
 import Driver.Proto
@@ -105,6 +106,47 @@ def seqJudgeGo (kind : String) : List String → List String → String
 def seqJudge (f : List String) (out : String) : String :=
   match f, out.splitOn "\t" with
   | [kind, _, steps], [os, _] => seqJudgeGo kind (steps.splitOn ";") (os.splitOn ",")
+  | _, _ => "bad:unparsable:" ++ out
+
+/-
+  c05.hdr  names  pool  robin  reqs
+     names = header names as written after `policy header`, space separated
+     reqs  = ';' list of requests, a request = '|' list of  <name as sent>:<value hex>
+     out   = comma list of choices TAB counter after the last request
+-/
+def parseHLine (s : String) : Option HLine :=
+  match s.splitOn ":" with
+  | [n, v] => do pure (n.toUTF8.toList, ← Driver.unhex v)
+  | _ => none
+
+def parseReq (s : String) : Option Req :=
+  if s = "" then some [] else (s.splitOn "|").mapM parseHLine
+
+def parseHdr : List String → Option (List Name × Pool × Nat × List Req)
+  | [names, p, r, reqs] => do
+    pure (((names.splitOn " ").filter (· != "")).map (·.toUTF8.toList), ← parsePool p, ← r.toNat?, ← (reqs.splitOn ";").mapM parseReq)
+  | _ => none
+
+def hdrModel (f : List String) : String :=
+  match parseHdr f with
+  | none => "bad-case"
+  | some (names, p, robin, reqs) =>
+    if !headerConfigOk names then "config-rejected" else
+    let (obs, r) := headerRun names p reqs robin
+    ",".intercalate (obs.map fun x => Driver.optNat x.2) ++ "\t" ++ toString r
+
+def hdrJudge (f : List String) (out : String) : String :=
+  if out == "config-rejected" then
+    (match parseHdr f with
+     | some (names, _, _, _) => if headerConfigOk names then "bad:rejected:a header policy with a name was refused" else "ok"
+     | none => "bad:unparsable:" ++ out) else
+  match parseHdr f, out.splitOn "\t" with
+  | some (names, p, _, reqs), [os, _] =>
+    match (os.splitOn ",").mapM Driver.parseOptNat with
+    | none => "bad:unparsable:" ++ out
+    | some os =>
+      if os.length != reqs.length then "bad:unparsable:number of answers"
+      else Casket.PolicySpec.headerVerdict names p (reqs.zip os)
   | _, _ => "bad:unparsable:" ++ out
 
 def fnvModel : List String → String
@@ -244,6 +286,7 @@ def streams : List Driver.Stream := [
   { name := "c05.retry", model := retryModel, judge := retryJudge },
   { name := "c05.select", model := selectModel, judge := selectJudge },
   { name := "c05.seq", model := seqModel, judge := seqJudge },
+  { name := "c05.hdr", model := hdrModel, judge := hdrJudge },
   { name := "c05.fnv", model := fnvModel, judge := fun _ _ => "ok" }
 ]
 
